@@ -138,9 +138,20 @@ func verifyFunction(prog *Program, db *SpecDB, con *Contract) (res *FuncResult) 
 	}()
 	vc.registerVar("alloc", "Int")
 	for _, g := range db.GhostList {
-		gv := db.Ghosts[g]
-		ty := vc.resolveType(gv.Type, vc.pkgByRel(gv.Pkg))
-		vc.registerVar("g:"+g, ty.Sort)
+		// ghosts whose type lives in a package that is not loaded for this property are
+		// simply not part of this function's state
+		func() {
+			defer func() {
+				if r := recover(); r != nil {
+					if _, ok := r.(specErr); !ok {
+						panic(r)
+					}
+				}
+			}()
+			gv := db.Ghosts[g]
+			ty := vc.resolveType(gv.Type, vc.pkgByRel(gv.Pkg))
+			vc.registerVar("g:"+g, ty.Sort)
+		}()
 	}
 	vc.emitAxioms()
 	f := vc.newFrame(fn, nil)
